@@ -7,6 +7,7 @@ typedef photospline::splinetable<> Table;
 typedef photospline::splinetable<ta::TrackAlloc<void>> TTable;
 static vf::Harness* H;
 
+static void run_spec(tg::TableSpec& s, int d, int op, int naux, int lencls, int nconv, int cdim, const std::string& extra);
 static void run_case(uint64_t idx) {
   static const vf::Radix R{6, 3, 4, 4, 8, 6};
   auto v = R.decode(idx);
@@ -16,6 +17,23 @@ static void run_case(uint64_t idx) {
   tg::TableSpec s;
   for (int i = 0; i < d; i++) { uint32_t o = op == 0 ? 2 : (op == 1 ? (uint32_t)((i * 2 + 1) % 4) : (uint32_t)(i % 2 ? 0 : 3)); s.dims.push_back({o, tg::make_knots(tg::K_UNIFORM, o, 2 * o + 2 + 1 + (d <= 4 ? i : i % 2), 0.5 * i)}); }
   s.coeffs = tg::make_coeffs(1, s.ncoeffs(), H->seed, idx);
+  run_spec(s, d, op, naux, lencls, nconv, cdim, "");
+}
+// The estimate ends with "round up to a KB and add one more": a term that is short by less than that slack is invisible on
+// small tables. Here one dimension has a long knot vector (so every per-dimension term exceeds the slack on its own), no
+// auxiliary keys (their pessimistic allowance is further slack), and the kernel knots make all pairwise knot sums distinct.
+static void run_long(uint64_t idx) {
+  static const vf::Radix R{3, 3, 3, 2, 5, 3};
+  auto v = R.decode(idx);
+  int d = 1 + v[0], ldim = v[1]; static const int LN[] = {140, 300, 517}; int ln = LN[v[2]]; int op = v[3]; static const int NC[] = {1, 2, 3, 5, 8}; int nconv = NC[v[4]]; int cdim = v[5];
+  if (ldim >= d || cdim >= d) return;
+  if (nconv == 1 && cdim != 0) return;
+  tg::TableSpec s;
+  for (int i = 0; i < d; i++) { uint32_t o = op == 0 ? 2 : (uint32_t)((i + 1) % 4); s.dims.push_back({o, tg::make_knots(tg::K_UNIFORM, o, i == ldim ? ln : (int)(2 * o + 2 + 1 + i), 0.5 * i)}); }
+  s.coeffs = tg::make_coeffs(1, s.ncoeffs(), H->seed, idx);
+  run_spec(s, d, op, 0, 0, nconv, cdim, vf::fmt(" long-dim=%d(%d knots)", ldim, ln));
+}
+static void run_spec(tg::TableSpec& s, int d, int op, int naux, int lencls, int nconv, int cdim, const std::string& extra) {
   std::string path = vf::fmt("c19_%d.fits", (int)getpid());
   {
     Table t; tg::build(t, s);
@@ -31,7 +49,7 @@ static void run_case(uint64_t idx) {
     }
     t.write_fits(path);
   }
-  std::string where = vf::fmt("[d=%d orders=%d naux=%d lengths=%d convolution-knots=%d dim=%d]", d, op, naux, lencls, nconv, cdim);
+  std::string where = vf::fmt("[d=%d orders=%d naux=%d lengths=%d convolution-knots=%d dim=%d%s]", d, op, naux, lencls, nconv, cdim, extra.c_str());
   H->hint(where);
   ta::Ledger& L = ta::ledger(); L.reset();
   size_t est = 0;
@@ -48,6 +66,7 @@ static void run_case(uint64_t idx) {
   long slack = (long)est - (long)peak;
   H->cls(vf::fmt("d=%d|naux=%d|len=%d|conv=%d|slack<%ld", d, naux, lencls, nconv > 1, slack < 0 ? 0 : (slack < 1024 ? 1024 : (slack < 4096 ? 4096 : 1000000))));
   if (slack < 4096) H->count("cases_with_slack_below_4KB");
+  if (!extra.empty() && slack <= 2048) H->count("long_cases_with_slack_at_most_2KB");
   if (peak > est) H->violation(std::string("estimate-below-requested-memory:") + (naux ? vf::fmt("aux-keys=%d:lengths=%d", naux, lencls) : "no-aux") + (nconv > 1 ? ":convolved" : ":load-only"), where + vf::fmt(" estimate %zu bytes, peak requested %zu (after load %zu)", est, peak, after_load));
   for (auto& e : L.errors) { H->violation("allocator-misuse:" + e.substr(0, e.find(':')), where + " " + e); break; }
   if (L.live_bytes != 0) H->violation("storage-not-returned-on-destruction", where + vf::fmt(" %zu bytes live", L.live_bytes));
@@ -58,10 +77,12 @@ int main(int argc, char** argv) {
   vf::Harness h("C19", argc, argv);
   H = &h;
   h.meta("level", "exploration");
-  h.meta("rule", "complete walk: files written by the library for d=1..6 x 3 order patterns (unequal axes) x {0,1,10,50} auxiliary keys x 4 key/value length classes (1 char, 8 chars, maximal standard card, maximal HIERARCH card) x {no convolution, 2..8 kernel knots} x every dimension index; each file is loaded into splinetable<TrackAlloc> and convolved as declared; the ledger's high-water mark of simultaneously live requested bytes plus sizeof(splinetable) must not exceed estimateMemory(path, n, dim); every block must be returned with its allocation size and element type, and nothing may stay live after destruction; distinct = (dimension, aux class, convolved?, slack bucket)");
+  h.meta("rule", "complete walk: files written by the library for d=1..6 x 3 order patterns (unequal axes) x {0,1,10,50} auxiliary keys x 4 key/value length classes (1 char, 8 chars, maximal standard card, maximal HIERARCH card) x {no convolution, 2..8 kernel knots} x every dimension index; each file is loaded into splinetable<TrackAlloc> and convolved as declared; the ledger's high-water mark of simultaneously live requested bytes plus sizeof(splinetable) must not exceed estimateMemory(path, n, dim); every block must be returned with its allocation size and element type, and nothing may stay live after destruction; space 'long': d=1..3 with one dimension of 140 / 300 / 517 knots (each position) x 2 order patterns x {no convolution, 2,3,5,8 kernel knots} x every dimension, no auxiliary keys, kernel knots chosen so that all pairwise knot sums are distinct - there the estimate's only slack is its final KB rounding (1025..2048 bytes), so any per-dimension term that is short shows; distinct = (dimension, aux class, convolved?, slack bucket)");
   h.meta("assumption", "requested bytes as seen by the allocator (no per-block overhead of a particular arena implementation)");
   h.meta("require_cases_with_slack_below_4KB", "50");
   h.timeout_s = 60;
+  h.meta("require_long_cases_with_slack_at_most_2KB", "20");
   h.add_space("files", 6ull * 3 * 4 * 4 * 8 * 6, run_case);
+  h.add_space("long", 3ull * 3 * 3 * 2 * 5 * 3, run_long);
   return h.main();
 }
